@@ -402,6 +402,32 @@ fn sval<'a>(v: &'a Value, i: usize) -> &'a str {
 }
 
 /// Runs one behaviour; returns a list of divergences (empty = conforms). `probe`: do fault probes.
+/// Result-returning constructors of the object API that build several locked regions; the object is dropped
+/// before returning, so only allocations, releases and the result are left to observe.
+fn composite(f: &str) -> Result<(), String> {
+    use dryoc::keypair::{PublicKey, SecretKey};
+    use dryoc::precalc::PrecalcSecretKey;
+    use dryoc::sign::protected::LockedSigningKeyPair;
+    use dryoc::protected::{HeapByteArray, LockedRO};
+    type LockedROSigningKeyPair = dryoc::sign::SigningKeyPair<LockedRO<HeapByteArray<32>>, LockedRO<HeapByteArray<64>>>;
+    type LockedKeyPair = dryoc::dryocbox::protected::LockedKeyPair;
+    type LockedROKeyPair = dryoc::dryocbox::protected::LockedROKeyPair;
+    fn e<T, E: std::fmt::Debug>(r: Result<T, E>) -> Result<(), String> { r.map(|v| drop(v)).map_err(|e| format!("{:?}", e)) }
+    let pk = PublicKey::from([9u8; 32]);
+    let sk = SecretKey::from([7u8; 32]);
+    match f {
+        "KeyPair::new_locked_keypair" => e(LockedKeyPair::new_locked_keypair()),
+        "KeyPair::gen_locked_keypair" => e(LockedKeyPair::gen_locked_keypair()),
+        "KeyPair::gen_readonly_locked_keypair" => e(LockedROKeyPair::gen_readonly_locked_keypair()),
+        "SigningKeyPair::new_locked_keypair" => e(LockedSigningKeyPair::new_locked_keypair()),
+        "SigningKeyPair::gen_locked_keypair" => e(LockedSigningKeyPair::gen_locked_keypair()),
+        "SigningKeyPair::gen_readonly_locked_keypair" => e(LockedROSigningKeyPair::gen_readonly_locked_keypair()),
+        "PrecalcSecretKey::precalculate_locked" => e(PrecalcSecretKey::precalculate_locked(&pk, &sk)),
+        "PrecalcSecretKey::precalculate_readonly_locked" => e(PrecalcSecretKey::precalculate_readonly_locked(&pk, &sk)),
+        _ => Err(format!("HARNESS: unknown composite constructor {}", f)),
+    }
+}
+
 pub fn run_case(case: &Value, probe: bool, progress: *mut u32) -> Vec<Value> {
     let mut fails: Vec<Value> = vec![];
     let steps = match case.as_array() {
@@ -498,6 +524,13 @@ pub fn run_case(case: &Value, probe: bool, progress: *mut u32) -> Vec<Value> {
                 let reg = slots[h].reg.take();
                 match catch(move || drop(reg)) {
                     Ok(()) => Ok(Ok(())),
+                    Err(p) => Err(p),
+                }
+            }
+            "composite" => {
+                let f = sval(op, 2).to_string();
+                match catch(move || composite(&f)) {
+                    Ok(r) => Ok(r),
                     Err(p) => Err(p),
                 }
             }
